@@ -13,9 +13,14 @@ import (
 	"example.com/scion-time/net/udp"
 )
 
+// MaxCookieLen is the size of the largest cookie that still fits into an NTS
+// request together with seven placeholders of the same size.
+const MaxCookieLen = 132
+
 var (
 	errNoCookies   = errors.New("unexpected NTS-KE meta data: no cookies")
 	errUnknownAlgo = errors.New("unexpected NTS-KE meta data: unknown algorithm")
+	errCookieLen   = errors.New("unexpected NTS-KE meta data: cookie too large")
 )
 
 // Fetcher is a client side NTS Cookie fetcher. It can be used for both TCP/TLS and SCION QUIC connections.
@@ -89,6 +94,11 @@ func (f *Fetcher) exchangeKeys(ctx context.Context) error {
 	if len(f.data.Cookie) == 0 {
 		return errNoCookies
 	}
+	for _, cookie := range f.data.Cookie {
+		if len(cookie) > MaxCookieLen {
+			return errCookieLen
+		}
+	}
 	if f.data.Algo != AES_SIV_CMAC_256 {
 		return errUnknownAlgo
 	}
@@ -115,5 +125,9 @@ func (f *Fetcher) FetchData(ctx context.Context) (Data, error) {
 
 // StoreCookie stores a cookie byte slice and appends it to the cached data.
 func (f *Fetcher) StoreCookie(cookie []byte) {
+	if len(cookie) > MaxCookieLen {
+		// cannot be sent in a request later on
+		return
+	}
 	f.data.Cookie = append(f.data.Cookie, cookie)
 }
